@@ -72,6 +72,7 @@ const (
 	idMapOrder = "C20-map-order"
 	idSenText  = "C20-print-sen-text"
 	idCondComp = "C20-cond-compiles-plan-list"
+	idAppend   = "C20-append-shares-backing"
 )
 
 type kase struct {
@@ -79,7 +80,7 @@ type kase struct {
 	plan   string // tree text
 	root   string
 	root2  string // optional: another root the same *Plan is executed on after its runs on `root` (compared with a fresh plan)
-	alias  bool // the plan may store aliases: run the implementation only where the model has a verdict
+	alias  bool   // the plan may store aliases: run the implementation only where the model has a verdict
 	spec   *specQ
 }
 
@@ -270,6 +271,92 @@ func buildCases() []kase {
 	}
 	rep.Exhaustive = append(rep.Exhaustive, fmt.Sprintf("equal and neq on every ordered pair of %d maps/lists with null members, absent keys and near-miss key sets (same size, one key renamed), as literals and (a third of the pairs) fetched by path: %d plans", len(ev), neq))
 
+	// exhaustive sort box: every list of at most 3 elements over values of every key kind, sorted by the element
+	// itself and by its member k (model = implementation, including which comparison raises the error)
+	{
+		sv := []any{int64(2), int64(1), 1.5, "b", "a", nil, true, map[string]any{"k": int64(1)}, map[string]any{"k": "z"}, map[string]any{"k": 2.5}}
+		var lists [][]any
+		lists = append(lists, []any{})
+		for _, a := range sv {
+			lists = append(lists, []any{a})
+			for _, b := range sv {
+				lists = append(lists, []any{a, b})
+				for _, c := range sv {
+					lists = append(lists, []any{a, b, c})
+				}
+			}
+		}
+		nsort := 0
+		for _, l := range lists {
+			if len(l) > 0 {
+				if _, isStr := l[0].(string); isStr {
+					l = append([]any{int64(0)}, l...) // keep it a literal list (a leading string could name a function)
+				}
+			}
+			for _, pth := range []string{"@", "@.k"} {
+				emit(kase{stream: "sortbox", plan: render([]any{"set", "$.asm", []any{"sort", l, pth}}), root: boxRoot, alias: true})
+				nsort++
+			}
+		}
+		// keys of one kind with ties: the order of equal keys is the order an insertion sort leaves (stable)
+		for _, pool := range [][]any{
+			{int64(1), int64(2), 1.0, 2.5, math.Copysign(0, -1), int64(0)},
+			{"a", "b", "ab", "", "B"},
+			{map[string]any{"k": int64(1), "i": int64(0)}, map[string]any{"k": int64(1), "i": int64(1)}, map[string]any{"k": 1.0, "i": int64(2)},
+				map[string]any{"k": int64(0), "i": int64(3)}, map[string]any{"k": "x", "i": int64(4)}, map[string]any{"i": int64(5)}},
+		} {
+			var ls [][]any
+			ls = append(ls, []any{})
+			for n := 1; n <= 4; n++ {
+				idx := make([]int, n)
+				for {
+					l := make([]any, n)
+					for i, j := range idx {
+						l[i] = pool[j]
+					}
+					ls = append(ls, l)
+					p := n - 1
+					for p >= 0 {
+						idx[p]++
+						if idx[p] < len(pool) {
+							break
+						}
+						idx[p] = 0
+						p--
+					}
+					if p < 0 {
+						break
+					}
+				}
+			}
+			for _, l := range ls {
+				pth := "@"
+				if len(l) > 0 {
+					if _, isMap := l[0].(map[string]any); isMap {
+						pth = "@.k"
+					}
+				}
+				var arg any = l
+				if len(l) > 0 {
+					if _, isStr := l[0].(string); isStr {
+						arg = []any{"quote", l} // a list that starts with a string: keep it a literal
+					}
+				}
+				emit(kase{stream: "sortbox", plan: render([]any{"set", "$.asm", []any{"sort", arg, pth}}), root: boxRoot, alias: true})
+				nsort++
+			}
+		}
+		for _, n := range []int{11, 12, 13, 14} { // the insertion-sort threshold of sort.Slice: 13 and more are outside the model
+			l := make([]any, n)
+			for i := range l {
+				l[i] = int64((i * 7) % n)
+			}
+			emit(kase{stream: "sortbox", plan: render([]any{"set", "$.asm", []any{"sort", l, "@"}}), root: boxRoot, alias: true})
+			nsort++
+		}
+		rep.Exhaustive = append(rep.Exhaustive, fmt.Sprintf("sort of every list of at most 3 elements drawn from %d values (ints, a float, strings, nil, a boolean, maps with an int, a string and a float member k) by the element and by its member k, and of 11-14 integers: %d plans, model = implementation", len(sv), nsort))
+	}
+
 	r := lib.NewRng(*seed)
 	nModel, nAll, nEnum, nMal, nTriple, nFrame, nObs := 9000, 5000, 1500, 1500, 2500, 4000, 4000
 	nCpath := 1200
@@ -329,6 +416,20 @@ func buildCases() []kase {
 		plan, root, root2 := gc.cpathCase()
 		emit(kase{stream: "cpath", plan: render(plan), root: render(root), root2: render(root2)})
 	}
+	// append2: several appends to one list (a list with spare capacity: parsed data, results of list/getall/
+	// append), every result stored
+	gap := &gen{r: r.Fork(10), fns: modelled}
+	for i := 0; i < nCpath/2; i++ {
+		L := gap.pick([]string{"$.src.l", "$.asm.r", "$.src.m.x"})
+		mk := []any{"set", "$.asm.r", gap.pickAny([]any{[]any{"list", int64(1), int64(2), int64(3)}, []any{"append", []any{"list", "a"}, "b"},
+			[]any{"getall", "$.src.l.*"}, []any{"append", "$.src.l", gap.scalar()}, []any{"reverse", "$.src.l"}})}
+		plan := []any{mk, []any{"set", "$.asm.a", []any{"append", L, gap.scalar()}}, []any{"set", "$.asm.b", []any{"append", L, gap.scalar()}}}
+		if gap.pct(40) {
+			plan = append(plan, []any{"set", "$.asm.c", []any{"each", "$.src.l", []any{"set", "@.asm", []any{"append", L, "@.src"}}}})
+		}
+		root := map[string]any{"src": map[string]any{"l": []any{gap.scalar(), gap.scalar(), gap.scalar()}, "m": map[string]any{"x": []any{gap.intLit()}}}}
+		emit(kase{stream: "append2", plan: render(plan), root: render(root), alias: true})
+	}
 	g2 := &gen{r: r.Fork(9), fns: modelled} // second roots: a generator of their own, so that the streams stay as they were
 	gm := &gen{r: r.Fork(1), fns: modelled, alias: true, sloppy: 20}
 	for i := 0; i < nModel; i++ {
@@ -359,8 +460,7 @@ func buildCases() []kase {
 }
 
 func allFunctions() []string {
-	return append(append([]string{}, modelled...), "append", "float", "include", "inspect", "int", "join", "replace", "reverse",
-		"sort", "split", "string", "substr", "time", "time?", "title", "tolower", "toupper", "trim", "zone")
+	return append(append([]string{}, modelled...), unmodelledFns...)
 }
 
 // malformed plans: wrong arities and kinds everywhere, odd top-level shapes.
@@ -653,6 +753,13 @@ func judge(d *lib.Driver, k *kase, w WOut, v verdicts) {
 	}
 	// the tie: implementation == model under the expected deviations
 	curOK := modelled1(v.cur)
+	// C20-append-shares-backing: append evaluated at least twice, and the implementation differs from the model
+	// (append into a new array) only at elements of arrays of equal length
+	if curOK && canonFloats(v.cur) != implRuns && appendsTwice(mustTree(k.plan)) && elementDiffOnly(implRuns, canonFloats(v.cur)) {
+		nontrivial = 1
+		addKnown(k, idAppend, "alias:append-shares-backing", "two evaluations of append on one list share the slot after its last element: the element an earlier append added is overwritten by a later one (the model appends into a new array)")
+		return
+	}
 	if curOK {
 		rep.Count("modelled."+base, 1)
 		if canonFloats(v.cur) != implRuns {
@@ -756,6 +863,75 @@ func judge(d *lib.Driver, k *kase, w WOut, v verdicts) {
 	}
 }
 
+// appendsTwice: the plan evaluates append more than once: two calls, or one call inside each.
+func appendsTwice(plan any) bool {
+	n := 0
+	var walk func(v any, inEach bool)
+	walk = func(v any, inEach bool) {
+		t, ok := v.([]any)
+		if !ok {
+			return
+		}
+		if len(t) > 0 {
+			if s, ok := t[0].(string); ok {
+				if s == "append" {
+					n++
+					if inEach {
+						n++
+					}
+				}
+				if s == "each" {
+					inEach = true
+				}
+			}
+		}
+		for _, x := range t {
+			walk(x, inEach)
+		}
+	}
+	walk(plan, false)
+	return n >= 2
+}
+
+// elementDiffOnly: two run texts ("ok <tree>;ok <tree>") have the same shape and differ only at atoms that are
+// elements of arrays (the differing atom is preceded by `[` or `,` inside an array, not by a key).
+func elementDiffOnly(a, b string) bool {
+	atoms := func(s string) []string {
+		var out []string
+		for i := 0; i < len(s); {
+			if i+1 < len(s) && s[i+1] == '(' {
+				e := strings.IndexByte(s[i:], ')')
+				if e < 0 {
+					return nil
+				}
+				out = append(out, s[i:i+e+1])
+				i += e + 1
+				continue
+			}
+			out = append(out, s[i:i+1])
+			i++
+		}
+		return out
+	}
+	x, y := atoms(a), atoms(b)
+	if x == nil || len(x) != len(y) {
+		return false
+	}
+	diff := false
+	for i := range x {
+		if x[i] == y[i] {
+			continue
+		}
+		// a scalar atom directly after `[` or `,` with no key before it: an array element
+		if i == 0 || (x[i-1] != "[" && x[i-1] != ",") || len(x[i]) == 1 && strings.ContainsAny(x[i], "[]{},") || len(y[i]) == 1 && strings.ContainsAny(y[i], "[]{},") {
+			return false
+		}
+		// inside an object members are `K(..)value` separated by `,`: the previous atom would be a key, so `,` or `[` means array
+		diff = true
+	}
+	return diff
+}
+
 // compiledOnly: two tree texts (Simplify() before and after a run) have the same shape and differ only at
 // atoms where the text of a path stands as a string before and as a jp.Expr — or, inside a nested call
 // that was compiled and is printed through Fn.Simplify, as the re-printed path string — after.
@@ -812,11 +988,12 @@ func compiledOnly(before, after string) bool {
 //     everywhere except at or below the places written by the statements from the first enumerating
 //     one on (downstream: values computed from the member taken) — or the model stopped with `enum`,
 //     in which case it proves that the result may follow the order.
+//
 // Anything else that differs from run to run is a violation.
 type orderJudge struct {
 	site, modelEnum bool
 	members         map[string]bool
-	targets         [][]pfrag // what the statements from the first enumerating one on may write
+	targets         [][]pfrag         // what the statements from the first enumerating one on may write
 	raw             map[string]string // canonFloats(run) -> the run as the worker wrote it (parseTree reads that form)
 }
 
